@@ -117,6 +117,11 @@ fn c10_in_domain(plan: &Plan) -> bool {
 			_ => {}
 		}
 	}
+	if plan.params.get("ooo").copied().unwrap_or(0) == 1 {
+		// out-of-order timestamps are the point of this case; it has neither hard deletes
+		// nor replaces (a reduction cannot add any)
+		return true;
+	}
 	// timestamps per key must be non-decreasing in commit order (the property's domain).
 	// Explicit timestamps are generated relative to the commit count and a write without one
 	// takes the commit time (the simulated clock moves 1000 ns per commit), so a reduction
@@ -450,7 +455,13 @@ fn gen_c08(case_seed: u64, _case: u64, _tier: Tier) -> Plan {
 				6 => Step::Delete { a: 1, k, ts },
 				7 => Step::Replace { a: 1, k, v: tags.next(rng.range(1, 50) as u32) },
 				8 => Step::SoftDelete { a: 1, k, ts },
-				9..=12 => Step::Get { a: 1, k },
+				9..=11 => Step::Get { a: 1, k },
+				// read-your-writes through a cursor, with direction changes over keys that are
+				// both in the snapshot and pending in this transaction
+				12 => {
+					let len = rng.range(3, 12) as usize;
+					Step::Cursor { a: 1, lo: None, hi: None, prog: cursor_prog(&mut rng, nkeys, len) }
+				}
 				13 => Step::Scan { a: 1, lo: None, hi: None, rev: rng.chance(1, 2) },
 				14 | 15 => Step::Savepoint { a: 1 },
 				16 | 17 => Step::RollbackSp { a: 1 },
@@ -791,7 +802,16 @@ fn gen_c10(case_seed: u64, case: u64, tier: Tier) -> Plan {
 	opts.versioned_index = rng.chance(1, 2);
 	// retention: unlimited in two thirds of the cases, otherwise a window of a few commits
 	// (the simulated clock moves 1000 ns per commit plus the Advance steps below)
-	opts.retention_ns = if rng.chance(1, 3) { *rng.pick(&[2_500u64, 6_000, 20_000]) } else { 0 };
+	opts.retention_ns = if rng.chance(1, 3) { *rng.pick(&[8_000u64, 20_000, 50_000]) } else { 0 };
+	// out-of-order timestamps (the property allows them with the index enabled): explicit
+	// timestamps that do not follow commit order. Kept to sets and soft deletes on an
+	// index-backed store with unlimited retention: what a hard delete / replace with an older
+	// timestamp erases is pinned down by no property.
+	let ooo = rng.chance(1, 6);
+	if ooo {
+		opts.versioned_index = true;
+		opts.retention_ns = 0;
+	}
 	let finite = opts.retention_ns > 0;
 	opts.vlog_max_file = *rng.pick(&[512u64, 4096, 1 << 20]);
 	opts.memtable = *rng.pick(&[2048usize, 4096, 8192]);
@@ -835,7 +855,7 @@ fn gen_c10(case_seed: u64, case: u64, tier: Tier) -> Plan {
 	};
 	for i in 0..n {
 		if finite && rng.chance(1, 4) {
-			let ns = *rng.pick(&[1_000u64, 3_000, 10_000]);
+			let ns = *rng.pick(&[2_000u64, 10_000, 30_000]);
 			logical.push(Step::Advance { ns });
 			clock += ns;
 		}
@@ -854,14 +874,23 @@ fn gen_c10(case_seed: u64, case: u64, tier: Tier) -> Plan {
 				continue; // one write per key per transaction: no timestamp ties
 			}
 			touched.push(k);
-			let ts = base + 1 + j;
-			match rng.below(12) {
+			let mut ts = base + 1 + j;
+			if ooo {
+				// any timestamp, unique per case (no ties)
+				loop {
+					ts = rng.range(1, 60_000);
+					if !used_ts.contains(&ts) {
+						break;
+					}
+				}
+			}
+			match if ooo { rng.range(1, 2).max(rng.below(12)).max(1) } else { rng.below(12) } {
 				0 => logical.push(Step::Delete { a: 0, k, ts: None }),
 				1 | 2 => {
 					used_ts.push(ts);
 					logical.push(Step::SoftDelete { a: 0, k, ts: Some(ts) });
 				}
-				3 => {
+				3 if !ooo => {
 					let len = value_len(&mut rng).min(left - 60).max(8);
 					used_ts.push(clock);
 					logical.push(Step::Replace { a: 0, k, v: tags.next(len) });
@@ -895,7 +924,13 @@ fn gen_c10(case_seed: u64, case: u64, tier: Tier) -> Plan {
 	queries(&mut rng, &mut b2, &used_ts);
 	let mut pb = base_plan("C10", case_seed ^ 0xb, opts_b, keys, b2);
 	pb.gate_tasks = true;
-	pa.twin = Some(Box::new(pb));
+	if ooo {
+		// the back-end without the index is outside the property's domain for out-of-order
+		// timestamps: no twin
+		pa.params.insert("ooo".into(), 1);
+	} else {
+		pa.twin = Some(Box::new(pb));
+	}
 	pa
 }
 
